@@ -449,7 +449,7 @@ theorem NodeInv.row_id {pa aa : String → Option String} {r : String} {sd : Sid
 
 theorem NodeInv.tableOK {pa aa : String → Option String} {r : String} {sd : Side} {g : CState}
     (h : NodeInv pa aa r sd g) : Node.TableOK sd.table :=
-  ⟨h.tnd, fun p hp => h.row_id (AMap.find_of_mem h.tnd hp)⟩
+  ⟨h.tnd, fun _ hp => h.row_id (AMap.find_of_mem h.tnd hp)⟩
 
 /-- **A node whose view at `r` is flagged left is never chosen by `r`**: it is in no
 `LookupEndpoint` candidate set, so `Select` never returns it. -/
@@ -619,5 +619,301 @@ theorem Sys.self_not_candidate (ops : List SysOp) (hall : SysAllowed ops) {a : S
   intro c hc
   have := (Node.candidates_active sda.table e c hc).2
   rw [hna.tlid] at this; exact this
+
+/-! ## routing in a world where one node has left -/
+
+namespace Proxy
+open Piko.Upstream
+
+/-- routing information has settled around a node `a` that has left: no node holds an `active` row
+about `a`; every row about any other node is that node's truth; every node has a row for every
+other node but `a` -/
+structure SettledExcept (w : World) (a : String) : Prop where
+  ids : WId w
+  ok : WOk w
+  rows_left : ∀ n m, w.nodes.find n = some m → ∀ c ∈ m.cluster.nodes.vals, c.id ≠ n → c.id = a →
+    c.status ≠ .active
+  rows_sound : ∀ n m, w.nodes.find n = some m → ∀ c ∈ m.cluster.nodes.vals, c.id ≠ n → c.id ≠ a →
+    c.status = .active ∧ w.listen.find c.proxyAddr = some c.id ∧
+    ∃ mk, w.nodes.find c.id = some mk ∧ ∀ e, (c.serves e = true ↔ mk.registry e ≠ [])
+  rows_complete : ∀ n m k mk, w.nodes.find n = some m → w.nodes.find k = some mk → k ≠ n → k ≠ a →
+    ∃ c ∈ m.cluster.nodes.vals, c.id = k
+
+/-- `route_settled` around a node that has left: a request entering at any other node is served by
+an upstream of a node other than `a` if one of them has one, and answered 502 by the entry node
+otherwise - whatever `a` itself still has registered. -/
+theorem route_settled_except (lib : Lib) (w : World) (a : String) (hs : SettledExcept w a) (hng : NoGone w)
+    (fuel : Nat) (n : String) (m : Mgr) (hn : w.nodes.find n = some m) (hna : n ≠ a) (r : Req)
+    (hnf : r.forwarded = false) (e : String) (he : endpointOf lib r = some e) (ch : List Nat) :
+    ((∃ k, k ≠ a ∧ w.reg k e ≠ []) →
+      ∃ k u, k ≠ a ∧ (routeAt lib (fuel + 2) w n r ch).1.outcome = .served k e u ∧ u ∈ w.reg k e) ∧
+    ((∀ k, k ≠ a → w.reg k e = []) →
+      (routeAt lib (fuel + 2) w n r ch).1 = { visited := [n], via := [], outcome := .noUpstream n }) := by
+  have hid : m.cluster.localId = n := hs.ids n m hn
+  by_cases hreg : m.registry e = []
+  swap
+  · obtain ⟨u, hu, hr⟩ := routeAt_local lib (fuel + 1) w n r ch m e hn (hs.ok n m hn) he hreg
+    rw [hng n e u] at hr
+    refine ⟨fun _ => ⟨n, u, hna, by rw [hr]; rfl, by rw [reg_of_find hn]; exact hu⟩, fun h => ?_⟩
+    have := h n hna; rw [reg_of_find hn] at this; exact absurd this hreg
+  rcases handle_spec lib (w.isGone n) m r with ⟨h0, _⟩ | ⟨e0, he0, ⟨lb, u0, lb', h1, h2, _, _, _, hh⟩ |
+      ⟨lb, u0, lb', h1, h2, _, _, _, hh⟩ | ⟨lb, h1, _, h3⟩ | ⟨h1, _, hc, hh⟩ | ⟨h1, h2, hh⟩⟩
+  · rw [he] at h0; simp at h0
+  · rw [he] at he0; simp only [Option.some.injEq] at he0; subst he0
+    rw [registry_of_find h1] at hreg
+    exact absurd hreg (hs.ok n m hn e lb h1).1
+  · rw [he] at he0; simp only [Option.some.injEq] at he0; subst he0
+    rw [registry_of_find h1] at hreg
+    exact absurd hreg (hs.ok n m hn e lb h1).1
+  · exact absurd (hs.ok n m hn e0 lb h1) h3
+  · rw [he] at he0; simp only [Option.some.injEq] at he0; subst he0
+    obtain ⟨c, hpc⟩ := pickCand_some_of_ne hc (ch.headD 0)
+    have hcm := mem_lookupCandidates.mp (pickCand_mem hpc)
+    rw [hid] at hcm
+    have hca : c.id ≠ a := fun hca => hs.rows_left n m hn c hcm.1 hcm.2.1 hca hcm.2.2.1
+    obtain ⟨hact, hlis, mk, hk, hsv⟩ := hs.rows_sound n m hn c hcm.1 hcm.2.1 hca
+    have hkreg : mk.registry e ≠ [] := (hsv e).mp hcm.2.2.2
+    rw [routeAt_forward lib (fuel + 1) w n r ch m m e _ _ hn hh, hpc]
+    simp only [hlis]
+    have hk' : ({ w with nodes := w.nodes.insert n m } : World).nodes.find c.id = some mk := by
+      simp only [AMap.find_insert]
+      have : ¬ n = c.id := fun h => hcm.2.1 h.symm
+      simp [this, hk]
+    obtain ⟨u, hu, hr⟩ := routeAt_local lib fuel { w with nodes := w.nodes.insert n m } c.id (forwardReq r)
+      ch.tail mk e hk' (hs.ok c.id mk hk) (by rw [endpointOf_forwardReq]; exact he) hkreg
+    have hg : ({ w with nodes := w.nodes.insert n m } : World).isGone c.id e u = false := hng c.id e u
+    rw [hg] at hr
+    refine ⟨fun _ => ⟨c.id, u, hca, by rw [hr]; rfl, by rw [reg_of_find hk]; exact hu⟩, fun h => ?_⟩
+    have := h c.id hca; rw [reg_of_find hk] at this; exact absurd this hkreg
+  · rw [he] at he0; simp only [Option.some.injEq] at he0; subst he0
+    have hc : m.cluster.lookupCandidates e = [] := by
+      rcases h2 with h2 | h2
+      · rw [hnf] at h2; simp at h2
+      · exact h2
+    rw [(routeAt_terminal lib (fuel + 1) w n r ch m _ hn).2.2.1 hh]
+    refine ⟨fun ⟨k, hka, hk⟩ => ?_, fun _ => rfl⟩
+    exfalso
+    have hkn : k ≠ n := by
+      intro h; subst h; rw [reg_of_find hn] at hk; exact hk hreg
+    cases hkf : w.nodes.find k with
+    | none => simp [World.reg, hkf] at hk
+    | some mk =>
+      rw [reg_of_find hkf] at hk
+      obtain ⟨c, hcv, hcid⟩ := hs.rows_complete n m k mk hn hkf hkn hka
+      have hcn : c.id ≠ n := by rw [hcid]; exact hkn
+      obtain ⟨hact, _, mk', hk', hsv⟩ := hs.rows_sound n m hn c hcv hcn (by rw [hcid]; exact hka)
+      rw [hcid, hkf] at hk'
+      simp only [Option.some.injEq] at hk'; subst hk'
+      have : c ∈ m.cluster.lookupCandidates e :=
+        mem_lookupCandidates.mpr ⟨hcv, by rw [hid]; exact hcn, hact, (hsv e).mpr hk⟩
+      rw [hc] at this; simp at this
+
+end Proxy
+
+/-! ## the system settles around a node that has left -/
+
+/-- `SysHealthy` (Props/C01) for a cluster in which node `a` has left: `a`'s own state is flagged
+left; nobody else has left; no view of a node other than `a` is flagged unreachable; every other node
+advertises non-empty addresses and has fewer than 2^63 upstreams per endpoint; proxy addresses are
+pairwise distinct -/
+structure SysHealthyExcept (s : Sys) (a : String) : Prop where
+  left : ∀ x, s.node a = some x → (own x.mgr.gossip).left = true
+  notLeft : ∀ n x, n ≠ a → s.node n = some x → (own x.mgr.gossip).left = false
+  reachable : ∀ n x k V, s.node n = some x → x.mgr.gossip.nodes.find k = some V → k ≠ n → k ≠ a →
+    V.unreachable = false
+  addrs : ∀ n x, n ≠ a → s.node n = some x →
+    x.mgr.cluster.localNode.proxyAddr ≠ "" ∧ x.mgr.cluster.localNode.adminAddr ≠ ""
+  small : ∀ n x e, n ≠ a → s.node n = some x → (x.mgr.registry e).length < 2 ^ 63
+  distinct : ∀ b c xb xc, s.node b = some xb → s.node c = some xc →
+    xb.mgr.cluster.localNode.proxyAddr = xc.mgr.cluster.localNode.proxyAddr → b = c
+
+/-- a remote row is about a node of the network -/
+theorem Sys.row_is_node (ops : List SysOp) (hall : SysAllowed ops) {n k : String} {x : SysNode}
+    (hx : (Sys.runRev ops).node n = some x) (hkn : k ≠ n) {c : Cluster.Node}
+    (hfind : x.mgr.cluster.nodes.find k = some c) :
+    ∃ V xk, x.mgr.gossip.nodes.find k = some V ∧ (Sys.runRev ops).node k = some xk := by
+  obtain ⟨sd, g, hsd, hg, rfl⟩ := Sys.node_eq hx
+  have hinv := sysInv_runRev ops hall
+  have hni := hinv.node n sd g hsd hg
+  obtain ⟨V, hV⟩ := hni.row_known hkn hfind
+  have hnet := netInv_sys _ hall
+  have hgN : (Gossip.runRev (Sys.netHist ops)).net.nodes.find n = some g := by
+    rw [← Sys.runRev_net]; exact hg
+  obtain ⟨H, O, hW⟩ := (hnet.node n g hgN).recv.known k V hV
+  have hkNet : ∃ gk, (Sys.runRev ops).net.nodes.find k = some gk := by
+    rw [Sys.runRev_net]
+    unfold GNet.world at hW
+    cases hf : (Gossip.runRev (Sys.netHist ops)).net.nodes.find k with
+    | none => simp [hf] at hW
+    | some gk => exact ⟨gk, rfl⟩
+  obtain ⟨gk, hgk⟩ := hkNet
+  obtain ⟨sdk, hsdk⟩ := hinv.side_of_net hgk
+  exact ⟨V, _, hV, by simp [Sys.node, hsdk, hgk]; rfl⟩
+
+open Piko.Proxy Piko.Cluster in
+/-- **The system settles around a node that has left**: after a settle schedule on a cluster that is
+healthy except that `a` has left, the routing world is `SettledExcept a`. -/
+theorem Sys.settles_except (ops sched : List SysOp) (hall : SysAllowed (sched ++ ops))
+    (hq : ∀ op ∈ sched, op.quiet.isSome = true)
+    (hjoins : ∀ r b, r ≠ b → ((Sys.runRev ops).node r).isSome = true → ((Sys.runRev ops).node b).isSome = true →
+      ∃ now, SysOp.join r b true now ∈ sched)
+    (a : String) (hh : SysHealthyExcept (Sys.runRev (sched ++ ops)) a) :
+    SettledExcept (Sys.runRev (sched ++ ops)).world a ∧ NoGone (Sys.runRev (sched ++ ops)).world := by
+  have hinv := sysInv_runRev _ hall
+  have hcaught := C04_caught_up_after_settle ops sched hall hq hjoins
+  have hmirror : ∀ n k xn xk, n ≠ k → k ≠ a → (Sys.runRev (sched ++ ops)).node n = some xn →
+      (Sys.runRev (sched ++ ops)).node k = some xk →
+      ∃ row, xn.mgr.cluster.nodes.find k = some row ∧ row.id = k ∧ row.status = .active ∧
+        row.proxyAddr = xk.mgr.cluster.localNode.proxyAddr ∧
+        ∀ e, row.endpoints.find e =
+          if (xk.mgr.registry e).length = 0 then none else some ((xk.mgr.registry e).length : Int) := by
+    intro n k xn xk hnk hka hn hk
+    obtain ⟨V, hV, hver⟩ := hcaught n k hnk xn xk hn hk
+    obtain ⟨_, row, hrow, _, hid, hp, _, hes, hst⟩ := C04_mirror_system _ hall n k hnk xn xk hn hk V hV hver
+      (hh.notLeft k xk hka hk) (hh.addrs k xk hka hk).1 (hh.addrs k xk hka hk).2 (fun e => hh.small k xk e hka hk)
+    refine ⟨row, hrow, hid, ?_, hp, hes⟩
+    rw [hst, hh.reachable n xn k V hn hV (fun e => hnk e.symm) hka]; rfl
+  -- unpack a manager of the world
+  have hworld : ∀ n m, (Sys.runRev (sched ++ ops)).world.nodes.find n = some m →
+      ∃ x, (Sys.runRev (sched ++ ops)).node n = some x ∧ m = x.mgr := by
+    intro n m hm
+    rw [Sys.world_find hinv] at hm
+    cases hx : (Sys.runRev (sched ++ ops)).node n with
+    | none => rw [hx] at hm; cases hm
+    | some x =>
+      rw [hx] at hm; simp only [Option.map_some, Option.some.injEq] at hm
+      exact ⟨x, rfl, hm.symm⟩
+  -- a row is filed under its id
+  have hrowkey : ∀ n x c, (Sys.runRev (sched ++ ops)).node n = some x → c ∈ x.mgr.cluster.nodes.vals →
+      x.mgr.cluster.nodes.find c.id = some c := by
+    intro n x c hx hc
+    obtain ⟨sd, g, hsd, hg, rfl⟩ := Sys.node_eq hx
+    have hni := hinv.node n sd g hsd hg
+    obtain ⟨k, hkc⟩ := AMap.mem_vals.mp hc
+    have hfind : sd.table.nodes.find k = some c := AMap.find_of_mem hni.tnd hkc
+    rw [hni.row_id hfind]; exact hfind
+  refine ⟨⟨?_, ?_, ?_, ?_, ?_⟩, fun _ _ _ => rfl⟩
+  · intro n m hm
+    obtain ⟨x, hx, rfl⟩ := hworld n m hm
+    obtain ⟨sd, g, hsd, hg, rfl⟩ := Sys.node_eq hx
+    exact (hinv.node n sd g hsd hg).tlid
+  · intro n m hm
+    obtain ⟨x, hx, rfl⟩ := hworld n m hm
+    obtain ⟨sd, g, hsd, hg, rfl⟩ := Sys.node_eq hx
+    exact (hinv.node n sd g hsd hg).minv.lbs
+  · -- no active row about `a`
+    intro n m hm c hc hcn hca hact
+    obtain ⟨x, hx, rfl⟩ := hworld n m hm
+    have hfind := hrowkey n x c hx hc
+    rw [hca] at hfind
+    have han : a ≠ n := by rw [← hca]; exact hcn
+    obtain ⟨V0, xa, _, hxa⟩ := Sys.row_is_node _ hall hx han hfind
+    obtain ⟨V, hV, hver⟩ := hcaught n a (fun e => han e.symm) x xa hx hxa
+    obtain ⟨sdn, gn, hsn, hgn, rfl⟩ := Sys.node_eq hx
+    obtain ⟨sda, ga, hsa, hga, rfl⟩ := Sys.node_eq hxa
+    have hl := Sys.left_of_caught_up _ hall (fun e => han e.symm) hgn hga hV hver (hh.left _ hxa)
+    have := ((hinv.node n sdn gn hsn hgn).left_row hV han hl).2 c hfind
+    rw [this] at hact; cases hact
+  · -- every other remote row is the truth about a real node
+    intro n m hm c hc hcn hca
+    obtain ⟨x, hx, rfl⟩ := hworld n m hm
+    have hfind := hrowkey n x c hx hc
+    obtain ⟨V0, xk, _, hxk⟩ := Sys.row_is_node _ hall hx hcn hfind
+    obtain ⟨row, hrow, hid, hst, hp, hes⟩ := hmirror n c.id x xk (fun e => hcn e.symm) hca hx hxk
+    rw [hfind] at hrow; cases hrow
+    refine ⟨hst, ?_, xk.mgr, by rw [Sys.world_find hinv, hxk]; rfl, fun e => ?_⟩
+    · rw [hp]
+      obtain ⟨sdk, gk, hsdk, hgk, rfl⟩ := Sys.node_eq hxk
+      refine Sys.world_listen hinv ?_ hsdk
+      intro b d sdb sdd hsb hsd' hbd
+      obtain ⟨gb', hgb'⟩ := hinv.net_of_side hsb
+      obtain ⟨gd', hgd'⟩ := hinv.net_of_side hsd'
+      exact hh.distinct b d _ _ (by simp [Sys.node, hsb, hgb']; rfl) (by simp [Sys.node, hsd', hgd']; rfl) hbd
+    · simp only [Cluster.Node.serves, hes e]
+      by_cases h0 : (xk.mgr.registry e).length = 0
+      · simp [List.length_eq_zero_iff.mp h0]
+      · have hne : xk.mgr.registry e ≠ [] := fun e0 => h0 (by rw [e0]; rfl)
+        simp only [h0, if_false, hne, ne_eq, not_false_eq_true, iff_true, decide_eq_true_eq]
+        omega
+  · intro n m k mk hm hk hkn hka
+    obtain ⟨x, hx, rfl⟩ := hworld n m hm
+    obtain ⟨xk, hxk, rfl⟩ := hworld k mk hk
+    obtain ⟨row, hrow, hid, _⟩ := hmirror n k x xk (fun e => hkn e.symm) hka hx hxk
+    exact ⟨row, AMap.mem_vals.mpr ⟨k, AMap.mem_of_find hrow⟩, hid⟩
+
+/-! ## the two steps of `Gossip.Leave` in the system -/
+
+theorem Sys.step_leave_eq {s : Sys} {a : String} {ga : CState} (hga : s.net.nodes.find a = some ga) :
+    s.step (.leave a) = { net := s.net.setNode a (leaveLocal ga), side := s.side } := by
+  simp [Sys.step, Sys.gossip, Net.step, localOp, hga, Sys.feed_nil]
+
+/-- `LeaveLocal` in the system: the node's gossip state becomes `leaveLocal`, nothing else changes -/
+theorem Sys.node_after_leave {s : Sys} {a : String} {xa : SysNode} (ha : s.node a = some xa) (k : String) :
+    (s.step (.leave a)).node k =
+      if a = k then some { xa with mgr := { xa.mgr with gossip := leaveLocal xa.mgr.gossip } } else s.node k := by
+  obtain ⟨sda, ga, hsa, hga, rfl⟩ := Sys.node_eq ha
+  rw [Sys.step_leave_eq hga]
+  by_cases hk : a = k
+  · subst hk
+    simp [Sys.node, hsa, Net.setNode, Side.sync]
+  · simp [Sys.node, Net.setNode, AMap.find_insert, hk]
+
+/-- a receive-side step other than a failure-detector round (and other than a join with its reply,
+which notifies two nodes) removes no routing-table row -/
+theorem Sys.recv_keeps_row {s : Sys} (hinv : SysInv s) (op : Gossip.Op) (hop : Flow.Recv op)
+    (hnj : ∀ n m now, op ≠ .join n m true now) (hnl : ∀ n sus now, op ≠ .liveness n sus now)
+    {r a : String} {sd : Side} (hsd : s.side.find r = some sd) (hrow : (sd.table.nodes.find a).isSome = true) :
+    ∃ sd', (s.gossip op).side.find r = some sd' ∧ (sd'.table.nodes.find a).isSome = true := by
+  rw [Sys.gossip_eq s op hnj]
+  simp only []
+  cases hw : s.side.find (s.net.step op).who with
+  | none => rw [Sys.feed_none _ _ _ hw]; exact ⟨sd, hsd, hrow⟩
+  | some sdw =>
+    rw [Sys.find_feed _ _ _ hw]
+    by_cases hwr : (s.net.step op).who = r
+    · rw [hwr] at hw
+      rw [hsd] at hw; cases hw
+      simp only [hwr, if_true]
+      refine ⟨_, rfl, ?_⟩
+      rw [Side.observe_table]
+      obtain ⟨g, hg⟩ := hinv.net_of_side hsd
+      exact SyncerSpec.run_keeps_row _ _ (hinv.node r sd g hsd hg).pend a hrow
+        ((Flow.FlowInv.step_recv s.good_marker hinv.flow op hop).2.2 hnl)
+    · simp only [hwr, if_false]; exact ⟨sd, hsd, hrow⟩
+
+/-- **A node that advertises nothing pushes tombstones only when it leaves**: no entry of the
+`LocalDelta` of `leaveLocal g` under an `endpoint:` key is live. -/
+theorem leave_delta_no_live_endpoint {g : CState} (hwf : OwnWF g)
+    (hadv : ∀ e, liveValue g ("endpoint:" ++ e) = none) :
+    ∀ de ∈ localDelta (leaveLocal g), ∀ x ∈ de.entries, ∀ e, x.key = "endpoint:" ++ e → x.deleted = true := by
+  intro de hde x hx e hk
+  simp only [localDelta, List.mem_cons, List.not_mem_nil, or_false] at hde
+  subst hde
+  simp only [deltaEntry, mem_sortByVersion, List.mem_filter] at hx
+  obtain ⟨k, hkx⟩ := AMap.mem_vals.mp hx.1
+  have hwf' := ownWF_leaveLocal hwf
+  have hkey : x.key = k := hwf'.keyed (k, x) hkx
+  have hf : (own (leaveLocal g)).entries.find k = some x := AMap.find_of_mem hwf'.nodup hkx
+  have hlv : liveValue (leaveLocal g) ("endpoint:" ++ e) = none := by
+    rw [liveValue_leaveLocal g (epKey_ne_reserved e).1]; exact hadv e
+  unfold liveValue at hlv
+  rw [← hk, hkey, hf] at hlv
+  by_cases hd : x.deleted = true
+  · exact hd
+  · simp [hd] at hlv
+
+/-- `C02_caught_up_exact` about the system: a view that has the owner's version is the owner's map -/
+theorem Sys.caught_up_exact (ops : List SysOp) (hall : SysAllowed ops) {r a : String} (hne : r ≠ a)
+    {xr xa : SysNode} (hr : (Sys.runRev ops).node r = some xr) (ha : (Sys.runRev ops).node a = some xa)
+    {V : NodeSt} (hV : xr.mgr.gossip.nodes.find a = some V)
+    (hc : V.version = (own xa.mgr.gossip).version) (k : String) :
+    V.entries.find k = (own xa.mgr.gossip).entries.find k := by
+  obtain ⟨sdr, gr, hsr, hgr, rfl⟩ := Sys.node_eq hr
+  obtain ⟨sda, ga, hsa, hga, rfl⟩ := Sys.node_eq ha
+  have hobs : Observes (Gossip.runRev (Sys.netHist ops)) r a V (own ga) := by
+    refine ⟨fun e => hne e.symm, ⟨gr, ?_, hV⟩, ⟨ga, ?_, rfl⟩⟩
+    · rw [← Sys.runRev_net]; exact hgr
+    · rw [← Sys.runRev_net]; exact hga
+  exact C02_caught_up_exact (allowedRev_netHist ops hall) hobs hc k
 
 end Piko
